@@ -47,7 +47,7 @@ def cases(draw):
         st.tuples(st.just("equivocate"), st.integers(0, 5), st.integers(0, 8), st.integers(0, 500)),
         st.tuples(st.just("delete"), which, st.just(""), st.just(0)),
     )
-    return {"k": k, "n": n, "seg": seg, "size": size, "servers": draw(st.integers(1, n + 1)), "damage": draw(st.lists(dmg, min_size=1, max_size=4)),
+    return {"k": k, "n": n, "seg": seg, "size": size, "servers": draw(st.integers(1, n + 1)), "guess": draw(st.sampled_from([None, None, 16, 100, 1000])), "damage": draw(st.lists(dmg, min_size=1, max_size=4)),
             "down": draw(st.lists(st.integers(0, 30), max_size=60)), "read": [draw(st.integers(0, size)), draw(st.integers(1, size))]}
 
 
@@ -155,11 +155,14 @@ def run_case(case, ctx):
                     classes.add("delete")
                 damaged.add(p)
         # ---- reads under the drawn schedule, from a fresh client (no cached hashes)
+        from allmydata.immutable.downloader.node import DownloadNode
+        from allmydata.interfaces import DEFAULT_IMMUTABLE_MAX_SEGMENT_SIZE
+        DownloadNode.default_max_segment_size = case.get("guess") or DEFAULT_IMMUTABLE_MAX_SEGMENT_SIZE     # the reader's initial segment-size guess may be below the real size
         reader = g.add_client()
         g.sched.choices, g.sched.ci = list(case["down"]), 0
         node = reader.nodemaker.create_from_cap(cap)
         outcomes = []
-        for (off, ln) in ([0, None], case["read"], [0, None]):
+        for (off, ln) in (case["read"], [0, None], case["read"]):      # the ranged read comes first: the fresh node has only a guess of the segment size
             c = Consumer()
             before = g.sched.delivered
             r = g.sched.run_until(node.read(c, off, ln), maxsteps=MAXSTEPS)
@@ -181,5 +184,8 @@ def run_case(case, ctx):
             outcomes.append(r[0])
     finally:
         g.stop()
+        from allmydata.immutable.downloader.node import DownloadNode as _DN
+        from allmydata.interfaces import DEFAULT_IMMUTABLE_MAX_SEGMENT_SIZE as _D
+        _DN.default_max_segment_size = _D
     ctx.note(sig=(k, n, seg, size, case["servers"], repr(case["damage"]), hash(tuple(case["down"]))), nontrivial=bool(damaged), classes=sorted(classes),
              sample={"k": k, "n": n, "seg": seg, "size": size, "servers": case["servers"], "damage": case["damage"], "outcomes": outcomes})
